@@ -304,3 +304,16 @@ func (e *Engine) PendingRet(joined *State, fr *Frame) (AVal, bool) {
 	v, ok := joined.vals[vkey{-fr.id, nil}]
 	return v, ok && v != nil
 }
+
+// DumpMasks prints the byte facts of a state (debugging).
+func (e *Engine) DumpMasks(st *State, w io.Writer) {
+	var ks []string
+	for k := range st.masks {
+		ks = append(ks, k)
+	}
+	sort.Strings(ks)
+	for _, k := range ks {
+		m := st.masks[k]
+		fmt.Fprintf(w, "      mask root=%d idx=%s %s\n", m.Root, e.LinStr(m.Idx), m.M)
+	}
+}
